@@ -68,6 +68,12 @@ CLAIMS["C11"] = dict(
   technique="edge-dominance of Level.Allows over every phi edge that commits a candidate (per-candidate, since its definition) + value/cell provenance of base, candidate, level and configuration",
   ref="DESIGN.md §3 C11")
 
+CLAIMS["C12"] = dict(
+  text="Plumbing between analysis, report and written manifest, decided from source for all inputs: ConstructPatches diffs the filtered Vulns lists of the original and the patched result and computeVulnsResult reports that same list (no UnfilteredVulns mixed in); every slices.CompactFunc over a slice sorted in the same function merges exactly the elements the sort comparator calls equal, and the update comparator compares Name, VersionFrom, VersionTo and Type mirrored; reported PackageUpdates take Name/VersionTo from the patched requirement and VersionFrom from the original requirement with the same requirement key, and a requirement / patch / fixed-vulnerability is left out only under the audited decisions (frozen table: unchanged version, incompatible patches, no-introduce, failed or empty strategy result); choosePatches returns unmodified elements of allPatches; doStrategy and Update hand writeManifestPatches the very patch list they return in Result.Patches, the manifest parsed from the same path, and return its error, and writeManifestPatches passes all of it to the ReadWriter; Unactionable is 'ID absent from the Fixed IDs of all computed patches', computed from the same patch list the applied patches are chosen from; the package.json writer applies every update or fails and changes nothing else (shared with C13). Level 'other': necessary conditions; that re-resolving the written manifest yields the reported sets (resolver, matcher, PatchRequirement alias semantics) and the pom.xml writer's application of updates are not decided.",
+  note="Trusted: go/ssa; slices.SortFunc/CompactFunc contracts; the frozen omission table c12Sanctioned was confirmed by reading each row.",
+  technique="field/value provenance between analysis, report and writer calls; comparator/equality agreement (same closure or same key set); frozen omission-decision table; path-sensitive applied-or-error rule of C13 reused",
+  ref="DESIGN.md §3 C12")
+
 CLAIMS["C06"] = dict(
   text="Effect analysis and containment rules: in all first-party code reachable from the 58 filesystem extractors and filesystem.Run the only file-system / process / database effects are the audited GetRealPath temp copy and its removal; bbolt databases are opened with ReadOnly; GetRealPath's temp directory is removed by every caller (filepath.Dir of the returned path) and on its own error exits; in unpack every MkdirAll/WriteFile/Symlink happens only after the lexical '..' rejection and a passed pathOutsideBaseDirectory(dir, fullPath) on that same path, and that check is filepath.Rel-based, rejects both '..' and '../', and treats errors as outside; layer scanning writes only Join(layer dir, cleaned name) after its '../' test, never creates links on disk, and cleans its temp directory on every error exit. Level 'other': who-may-mutate and dominance facts for all inputs; effects inside third-party code, symlink chains that become escaping through later entries, detectors and standalone extractors are not decided.",
   note="Trusted: CHA reachability over first-party code, the primitive table in c06.go, third-party open modes (go-rpmdb, saferwall/pe).",
